@@ -44,6 +44,10 @@ def wiring_unit(prop, through_simulation):
                     check("data_cache_kind", type(st.memory) is (WriteBackMemorySystem if dk == "wb" else WriteThroughMemorySystem))
                     check_cache("data_cache_", st.memory, d, st.performance_metrics)
                     check("data_cache_backing_is_the_flat_memory", type(st.memory.memory) is Memory and st.memory.memory.address_range.start == 2 ** 14)
+                if prop == "C10":
+                    # a cache configured "lru" / "plru" really replaces by that policy: each cache gets the policy of ITS options
+                    check("data_cache_replacement_policy", all_of([type(cs.replacement_strategy) is (LRU if dp == "lru" else PLRU) and cs.replacement_strategy.associativity == 4 for cs in st.memory.cache.sets]))
+                    check("instruction_cache_replacement_policy", all_of([type(cs.replacement_strategy) is (LRU if ip == "lru" else PLRU) and cs.replacement_strategy.associativity == 2 for cs in st.instruction_memory.cache.sets]))
                 if prop == "C11":
                     check("instruction_cache_kind", type(st.instruction_memory) is InstructionMemoryCacheSystem)
                     check_cache("instruction_cache_", st.instruction_memory, i, st.performance_metrics)
@@ -53,6 +57,6 @@ def wiring_unit(prop, through_simulation):
             check("disabled_means_uncached", type(st.memory) is Memory and type(st.instruction_memory) is InstructionMemory)
 
 
-for _p in ("C03", "C09", "C11"):
+for _p in ("C03", "C09", "C10", "C11"):
     wiring_unit(_p, False)
     wiring_unit(_p, True)
